@@ -2,28 +2,37 @@ package main
 
 import (
 	"os"
+	"sort"
 	"strings"
+)
+
+var (
+	scriptNames []string
+	scriptTexts map[string]string
 )
 
 // Which violation kinds each property's check reports. A run is evaluated with
 // every oracle; kinds outside the property under check are counted as
 // out_of_scope in the evidence and not reported by this check.
 var claims = map[string][]string{
-	"C01": {"lost-event", "overflow-not-reported"},
-	"C02": {"phantom-event", "housekeeping-event"},
-	"C03": {"order"},
-	"C04": {"watchlist-mismatch", "wrong-error", "panic", "history-not-explainable"},
-	"C05": {"blocked-control-op", "close-not-returning"},
-	"C06": {"channel-not-closed", "post-close-result", "panic", "close-not-returning", "event-after-close"},
-	"C07": {"data-race", "panic", "deadlock", "blocked-control-op", "close-not-returning", "history-not-explainable", "watchlist-mismatch", "wrong-error", "not-linearizable"},
-	"C08": {"name-mismatch"},
-	"C09": {"watchlist-mismatch", "wrong-error", "lost-event", "phantom-event"},
-	"C10": {"spurious-error", "overflow-not-reported", "dead-after-overflow"},
-	"C11": {"renamed-from-mismatch"},
-	"C12": {"kernel-mark-orphan", "kernel-mark-missing", "table-size", "foreign-watch"},
-	"C13": {"fd-leak", "task-leak", "foreign-watch"},
-	"C14": {"cap-mismatch", "stream-divergence", "lost-event", "phantom-event", "order", "foreign-watch"},
-	"C19": {"lost-event", "phantom-event", "name-mismatch", "order", "watchlist-mismatch", "renamed-from-mismatch"},
+	"C01":      {"lost-event", "overflow-not-reported"},
+	"C02":      {"phantom-event", "housekeeping-event"},
+	"C03":      {"order"},
+	"C04":      {"watchlist-mismatch", "wrong-error", "panic", "history-not-explainable"},
+	"C05":      {"blocked-control-op", "close-not-returning"},
+	"C06":      {"channel-not-closed", "post-close-result", "panic", "close-not-returning", "event-after-close"},
+	"C07":      {"data-race", "panic", "deadlock", "blocked-control-op", "close-not-returning", "history-not-explainable", "watchlist-mismatch", "wrong-error", "not-linearizable"},
+	"C08":      {"name-mismatch"},
+	"C09":      {"watchlist-mismatch", "wrong-error", "lost-event", "phantom-event"},
+	"C10":      {"spurious-error", "overflow-not-reported", "dead-after-overflow"},
+	"C11":      {"renamed-from-mismatch"},
+	"C12":      {"kernel-mark-orphan", "kernel-mark-missing", "table-size", "foreign-watch"},
+	"C13":      {"fd-leak", "task-leak", "foreign-watch"},
+	"C14":      {"cap-mismatch", "stream-divergence", "lost-event", "phantom-event", "order", "foreign-watch"},
+	"C17":      {"kq-fd-leak", "kq-table-leak", "kq-internal-path-listed", "task-leak", "panic", "deadlock"},
+	"C18":      {"kq-event-mismatch", "kq-duplicate-create", "kq-missing-create", "panic"},
+	"KQSCRIPT": {"script-mismatch", "panic", "deadlock"},
+	"C19":      {"lost-event", "phantom-event", "name-mismatch", "order", "watchlist-mismatch", "renamed-from-mismatch"},
 }
 
 func claimsOf(p string) map[string]bool {
@@ -88,6 +97,22 @@ func generate(prop, tier string, seed uint64, run int) *Scenario {
 		return genMulti(prop, seed, run, tier)
 	case "C19":
 		return genRecurse(prop, seed, run, tier)
+	case "C17":
+		return genKqFD(prop, seed, run, tier)
+	case "C18":
+		return genKqDir(prop, seed, run, tier)
+	case "KQSCRIPT":
+		if scriptNames == nil {
+			scriptTexts = loadScripts(os.Getenv("VERIF_REPO_DIR"))
+			for n := range scriptTexts {
+				scriptNames = append(scriptNames, n)
+			}
+			sort.Strings(scriptNames)
+		}
+		if run >= len(scriptNames) {
+			return nil
+		}
+		return genKqScript(scriptNames, scriptTexts, run)
 	}
 	return nil
 }
